@@ -1140,7 +1140,11 @@ impl Connection {
                 // since the packet could have triggered a migration. Make sure
                 // the data received is accounted for the most recent path by accessing
                 // `path` after `handle_decode`.
-                self.path.total_recvd = self.path.total_recvd.saturating_add(data_len as u64);
+                // Only what arrived from the path's own address raises its anti-amplification
+                // budget: datagrams still arriving from an address we migrated away from do not.
+                if remote == self.path.remote {
+                    self.path.total_recvd = self.path.total_recvd.saturating_add(data_len as u64);
+                }
 
                 if let Some(data) = remaining {
                     self.stats.udp_rx.bytes += data.len() as u64;
@@ -2320,7 +2324,9 @@ impl Connection {
         ecn: Option<EcnCodepoint>,
         data: BytesMut,
     ) {
-        self.path.total_recvd = self.path.total_recvd.saturating_add(data.len() as u64);
+        if remote == self.path.remote {
+            self.path.total_recvd = self.path.total_recvd.saturating_add(data.len() as u64);
+        }
         let mut remaining = Some(data);
         while let Some(data) = remaining {
             match PartialDecode::new(
